@@ -21,6 +21,7 @@ def isInt (s : String) : Bool := s.toInt?.isSome
         → setstack <n>|none create <0|1> ret <rc>
   trylock mutex|rd|wr <code>          → ret <rc> | abort
   semtry <n_eintr> <r> <errno>        → ret <rc> calls <n> | abort calls <n>
+  semwait|sleep <n_eintr> <r> <errno> → ret 0 calls <n> | abort calls <n>   (uv_sem_wait / uv_sleep)
   timedwait <sec> <nsec> <timeout> <rc> → deadline <sec> <nsec> clk 1 condclk 1 ret <rc>|abort
   barrier <rc>                        → ret <rc> | abort
   must <wrapper> <rc>                 → ret 0 | abort -/
@@ -40,6 +41,16 @@ def step (_ : Unit) : List String → Unit × List String
     match semTrywait (List.replicate (nat! n) (-1, EINTR) ++ [(int! r, int! e)]) with
     | some (o, calls) => ((), [s!"{showOut o} calls {calls}"])
     | none => ((), ["bad-op"])   -- (r,e) = (-1,EINTR): the loop would not end
+  | ["semwait", n, r, e] =>
+    if !(isNat n && isInt r && isInt e) then ((), ["bad-op"]) else
+    match semWait (List.replicate (nat! n) (-1, EINTR) ++ [(int! r, int! e)]) with
+    | some (o, calls) => ((), [s!"{showOut o} calls {calls}"])
+    | none => ((), ["bad-op"])
+  | ["sleep", n, r, e] =>
+    if !(isNat n && isInt r && isInt e) then ((), ["bad-op"]) else
+    match sleepLoop (List.replicate (nat! n) (-1, EINTR) ++ [(int! r, int! e)]) with
+    | some (o, calls) => ((), [s!"{showOut o} calls {calls}"])
+    | none => ((), ["bad-op"])
   | ["timedwait", sec, nsec, tmo, rc] =>
     if !(isNat sec && isNat nsec && isNat tmo && isInt rc) then ((), ["bad-op"]) else
     let d := deadline (hrtime (nat! sec) (nat! nsec)) (nat! tmo)
